@@ -8,6 +8,10 @@ Sub-checks
           is a fixed point.
   cast  : for (source type S, valid lexical, target type T): 'castable as', 'cast as' and xs:T(.) agree on success
           and value; success and value follow the F&O casting table / rules (reference: xsdlex.cast_ref).
+  decstr: xs:decimal values of tiny / huge magnitude, with python exponent representations (Decimal('1E-7'),
+          Decimal('1.2E+4'), trailing zeros) and computed ones (products, round-half-to-even, casts from double) through
+          xs:string / string / cast as / xs:untypedAtomic / concat / string-join / xs:token: canonical xs:decimal
+          lexical without exponent that casts back to an equal value.
 """
 from __future__ import annotations
 
@@ -54,6 +58,9 @@ FLOORS = {
     'cast:cross-type': (0.5, 'cast:case'),
     'cast:expected-ok': (0.2, 'cast:case'),
     'cast:expected-error': (0.2, 'cast:case'),
+    'decstr:class:tiny': (0.15, 'decstr:case'),
+    'decstr:class:pos-exponent': (0.08, 'decstr:case'),
+    'decstr:class:long': (0.08, 'decstr:case'),
 }
 
 BATCH = 24
@@ -93,8 +100,32 @@ def _expand_cast(mx):
     return {'S': s, 'lex': lex, 'T': t, 'ver': mx.pick(['1.0', '1.1']), 'xp': mx.pick(['2.0', '3.1']), 'how': how}
 
 
+DEC_SOURCES = ['$d', '$d', '$d', '-$d', 'abs($d)', '$d * $e', '$d + $e', '$d * 10', '$d * 100', 'round-half-to-even($d, -2)',
+               'round-half-to-even($d, 2)', 'round-half-to-even($d, -1)', 'round($d)', 'xs:decimal($x)', '$d div 8', '$i * $d',
+               'xs:decimal($d)']
+DEC_PATHS = ['xs:string({E})', 'string({E})', '({E}) cast as xs:string', 'xs:untypedAtomic({E})', '({E}) cast as xs:untypedAtomic',
+             "concat({E}, '')", "string-join(({E}, 'x'), '')", 'xs:token({E})', 'xs:normalizedString({E})', "concat('[', {E}, ']')"]
+_DEC_DOUBLES = ['100.0', '1e2', '1.5e3', '1e20', '1e22', '0.5', '0.0009765625', '12345.0', '1e15', '7.62939453125e-06', '2.5e-1']
+
+
+def _expand_decstr(mx):
+    d, cls = G.gen_pydecimal(mx)
+    src = mx.pick(DEC_SOURCES)
+    if cls == 'long' and src not in ('$d', 'xs:decimal($d)'):
+        src = '$d'            # arithmetic on more digits than the implementation's precision is implementation-defined
+    e, _ = G.gen_pydecimal(mx)
+    if len(e.replace('.', '').replace('-', '')) > 12:
+        e = '1.5E+3'
+    path = mx.pick(DEC_PATHS)
+    xp = '3.1' if 'string-join' in path else mx.pick(['2.0', '3.1'])
+    return {'d': d, 'e': e, 'x': mx.pick(_DEC_DOUBLES), 'i': mx.pick([3, 10, 1000, -7]), 'src': src, 'path': path,
+            'cls': cls, 'ver': mx.pick(['1.0', '1.1']), 'xp': xp}
+
+
 def expand(check, pool):
     mx = G.Mix(pool['mix'])
+    if check == 'decstr':
+        return [_expand_decstr(mx) for _ in range(BATCH)]
     if check in ('lex', 'canon'):
         out = []
         for _ in range(BATCH):
@@ -666,9 +697,80 @@ def judge_cast_case(case, rec: Recorder | None = None) -> list[Disc]:
 
 
 # --------------------------------------------------------------------------
+# decstr: xs:decimal -> xs:string for small and large magnitudes and python exponent representations
+# --------------------------------------------------------------------------
+
+def _dec_class(case, v) -> str:
+    """input class of the decimal that is converted (by its value and python representation)"""
+    if isinstance(v, Decimal):
+        if v != 0 and abs(v) < Decimal('0.000001'):
+            return 'tiny'
+        if v.as_tuple().exponent > 0:
+            return 'pos-exponent'
+        digits = v.as_tuple().digits
+        if len(digits) > 18:
+            return 'long'
+        if digits and digits[-1] == 0 and v.as_tuple().exponent < 0:
+            return 'trailing-zeros'
+    return 'plain'
+
+
+def judge_decstr_case(case, rec: Recorder | None = None) -> list[Disc]:
+    discs: list[Disc] = []
+    ver, xp, src, path = case['ver'], case['xp'], case['src'], case['path']
+    variables = {'d': Decimal(case['d']), 'e': Decimal(case['e']), 'x': float(case['x']), 'i': case['i']}
+    expr = path.replace('{E}', src)
+    detail = f'{expr} with d={case["d"]} e={case["e"]} x={case["x"]} i={case["i"]} xsd={ver} xpath={xp}'
+    classes = ['decstr:case', 'decstr:src:' + src, 'decstr:path:' + path.replace('{E}', '.')]
+    cls = 'skipped'
+    try:
+        v = _xp(xp, ver, src, **variables)
+        if isinstance(v, _Err) or isinstance(v, bool) or not isinstance(v, (Decimal, int)):
+            classes.append('decstr:source-not-decimal')
+        else:
+            cls = _dec_class(case, v)
+            fr = Fraction(v)
+            want = X.decimal_to_string(fr)
+            pid = path.replace('{E}', '.').replace(' ', '')
+            base = f'C10/decstr/{cls}/{pid}'
+            r = _xp(xp, ver, expr, **variables)
+            if isinstance(r, _Err):
+                discs.append(Disc(f'{base}/error/{r.code}', want, r, detail))
+            else:
+                from elementpath import datatypes as D
+                text = r.value if isinstance(r, D.UntypedAtomic) else r
+                if not isinstance(text, str):
+                    discs.append(Disc(f'{base}/type', want, repr(r), detail))
+                else:
+                    if "string-join" in path:
+                        text = text[:-1] if text.endswith('x') else text + '?'
+                    elif path.startswith("concat('['"):
+                        text = text[1:-1] if text[:1] == '[' and text[-1:] == ']' else text + '?'
+                    if text != want:
+                        try:
+                            same = Fraction(Decimal(text)) == fr and 'n' not in text.lower()
+                        except Exception:
+                            same = False
+                        discs.append(Disc(f'{base}/{"form" if same else "value"}', want, text, detail))
+                    # the string must cast back to an equal xs:decimal
+                    back = _xp(xp, ver, 'xs:decimal($r)', r=text)
+                    if isinstance(back, _Err):
+                        discs.append(Disc(f'{base}/not-castable-back', fr, back, detail + f' string={text!r}'))
+                    elif not isinstance(back, (Decimal, int)) or Fraction(back) != fr:
+                        discs.append(Disc(f'{base}/cast-back-not-equal', str(fr), repr(back), detail + f' string={text!r}'))
+    except Exception as e:
+        discs.append(Disc(escape_bucket('C10', e) + '/decstr', 'string', repr(e), detail))
+    classes.append('decstr:class:' + cls)
+    if rec is not None:
+        rec.case(['decstr', case['d'], case['e'], case['x'], case['i'], src, path, ver, xp], nontrivial=cls not in ('plain', 'skipped'),
+                 sample={'check': 'decstr', 'expr': expr, 'case': case}, classes=classes)
+    return discs
+
+
+# --------------------------------------------------------------------------
 # module interface
 # --------------------------------------------------------------------------
-_CASE_JUDGES = {'lex': judge_lex_case, 'canon': judge_canon_case, 'cast': judge_cast_case}
+_CASE_JUDGES = {'lex': judge_lex_case, 'canon': judge_canon_case, 'cast': judge_cast_case, 'decstr': judge_decstr_case}
 
 
 def _judge(check, case, rec=None):
@@ -705,7 +807,8 @@ def selftest():
 
 def jobs(tier, seed):
     q = tier == 'quick'
-    plan = {'lex': (7, 900 if q else 8000), 'canon': (3, 700 if q else 6000), 'cast': (6, 700 if q else 6000)}
+    plan = {'lex': (6, 900 if q else 8000), 'canon': (3, 700 if q else 6000), 'cast': (5, 700 if q else 6000),
+            'decstr': (2, 700 if q else 6000)}
     out = []
     for chk, (shards, n) in plan.items():
         for i in range(shards):
